@@ -187,22 +187,35 @@ func (a *WALBatchApplier) ApplyEntries(entries []*replication_proto.WALEntry, ap
 			a.expectedNextSeq, firstSeq)
 	}
 
-	// Process entries in order
-	var lastAppliedSeq uint64
-	for i, protoEntry := range entries {
-		// Verify entries are in sequence
-		if i > 0 && protoEntry.SequenceNumber != entries[i-1].SequenceNumber+1 {
+	// Verify that the whole batch is in sequence before applying any of it:
+	// a batch that is refused must leave no trace
+	for i := 1; i < len(entries); i++ {
+		if entries[i].SequenceNumber != entries[i-1].SequenceNumber+1 {
 			// Gap within the batch
 			hasGap = true
 			return a.maxAppliedSeq, hasGap, fmt.Errorf("sequence gap within batch: %d -> %d",
-				entries[i-1].SequenceNumber, protoEntry.SequenceNumber)
+				entries[i-1].SequenceNumber, entries[i].SequenceNumber)
 		}
+	}
 
+	// Process entries in order
+	var lastAppliedSeq uint64
+	// When the batch stops in the middle, the entries before the failure have
+	// been applied: move the cursor past them so that they are not applied
+	// again (out of order) when the rest is retransmitted
+	keepProgress := func() {
+		if lastAppliedSeq > 0 {
+			a.maxAppliedSeq = lastAppliedSeq
+			a.expectedNextSeq = lastAppliedSeq + 1
+		}
+	}
+	for i, protoEntry := range entries {
 		// Deserialize and apply the entry
 		entry, err := DeserializeWALEntry(protoEntry.Payload)
 		if err != nil {
 			fmt.Printf("Failed to deserialize entry %d: %v\n",
 				protoEntry.SequenceNumber, err)
+			keepProgress()
 			return a.maxAppliedSeq, false, fmt.Errorf("failed to deserialize entry %d: %w",
 				protoEntry.SequenceNumber, err)
 		}
@@ -217,6 +230,7 @@ func (a *WALBatchApplier) ApplyEntries(entries []*replication_proto.WALEntry, ap
 		if err := applyFn(entry); err != nil {
 			fmt.Printf("Failed to apply entry %d: %v\n",
 				protoEntry.SequenceNumber, err)
+			keepProgress()
 			return a.maxAppliedSeq, false, fmt.Errorf("failed to apply entry %d: %w",
 				protoEntry.SequenceNumber, err)
 		}
